@@ -5,10 +5,14 @@
 #include <stdlib.h>
 #include <string.h>
 #include <pthread.h>
+#include <fcntl.h>
 #include "safe_lib.h"
 #include "safe_str_lib.h"
 #include "safe_mem_lib.h"
 
+#include <signal.h>
+#include <setjmp.h>
+#include <unistd.h>
 static int n_scoped, n_global;
 static void h_scoped(const char *restrict m, void *restrict p, errno_t e) { (void)m; (void)p; (void)e; n_scoped++; }
 static void h_global(const char *restrict m, void *restrict p, errno_t e) { (void)m; (void)p; (void)e; n_global++; }
@@ -31,12 +35,46 @@ static void *worker(void *arg) {
     return NULL;
 }
 
+/* a program that survives abort_handler_s (SIGABRT caught and left through siglongjmp, which ISO C permits): the run of that handler is an
+ * invocation like any other, afterwards every registration is what it was */
+static sigjmp_buf ab_jb; static int n_abrt;
+static void on_abrt(int sig) { (void)sig; n_abrt++; siglongjmp(ab_jb, 1); }
+static void *abort_worker(void *arg) {
+    (void)arg; char d[4]; const void *volatile none = NULL; const char *volatile nones = NULL;
+    struct sigaction sa; memset(&sa, 0, sizeof sa); sa.sa_handler = on_abrt; sa.sa_flags = SA_NODEFER; sigaction(SIGABRT, &sa, NULL);
+    int devnull = open("/dev/null", 1), keep = dup(2); dup2(devnull, 2);       /* the handler's message */
+    thrd_set_mem_constraint_handler_s(h_scoped);                  /* this thread: own memory handler, the process-wide abort handler for strings */
+    set_str_constraint_handler_s(abort_handler_s);
+    for (int round = 0; round < 2; round++) if (sigsetjmp(ab_jb, 1) == 0) strcpy_s(d, 4, (const char *)nones);      /* violation: abort_handler_s, SIGABRT, back here */
+    dup2(keep, 2); close(keep); close(devnull);
+    int a = n_abrt, s0 = n_scoped;
+    memcpy_s(d, 4, none, 2);                                      /* the thread's own memory handler is still registered */
+    constraint_handler_t now_mem = thrd_set_mem_constraint_handler_s(h_scoped), now_str = thrd_set_str_constraint_handler_s(NULL);
+    int ok = a == 2 && n_scoped == s0 + 1 && now_mem == h_scoped && now_str == NULL;
+    printf("S registrations-after-surviving-abort_handler_s aborts=%d scoped-ran=%d mem-registration-kept=%d no-string-registration-appeared=%d %s\n", a, n_scoped - s0, now_mem == h_scoped, now_str == NULL, ok ? "ok" : "WRONG"); if (!ok) bad++;
+    set_str_constraint_handler_s(NULL);
+    return NULL;
+}
+
+/* a string violation on an object larger than the limit of the memory functions: the string handler runs, once; the memory handler does not */
+static char big[(256u << 20) + 16]; static volatile size_t V0;
+static void big_object(void) {
+    set_str_constraint_handler_s(h_global); set_mem_constraint_handler_s(h_scoped);
+    int g0 = n_global, s0 = n_scoped; big[0] = 'x';
+    int rc = strcpy_s(big, sizeof big + V0, "abc");             /* dmax above RSIZE_MAX_STR, the object's size known to the compiler */
+    int ok = rc != 0 && n_global == g0 + 1 && n_scoped == s0;
+    printf("S string-violation-on-an-object-above-the-memory-limit rc=%d string-handler=%d memory-handler=%d %s\n", rc, n_global - g0, n_scoped - s0, ok ? "ok" : "WRONG"); if (!ok) bad++;
+    set_str_constraint_handler_s(NULL); set_mem_constraint_handler_s(h_global);
+}
+
 int main(void) {
     constraint_handler_t p1 = set_mem_constraint_handler_s(h_global); AGREE("set_mem first", p1);
     constraint_handler_t p2 = set_mem_constraint_handler_s(h_global); AGREE("set_mem second", p2);
     constraint_handler_t p3 = set_str_constraint_handler_s(h_global); AGREE("set_str first", p3);
     constraint_handler_t p4 = set_str_constraint_handler_s(NULL); AGREE("set_str third", p4);
     pthread_t t; pthread_create(&t, NULL, worker, NULL); pthread_join(t, NULL);
+    pthread_create(&t, NULL, abort_worker, NULL); pthread_join(t, NULL);
+    big_object();
     printf("DONE %d\n", bad);
     return 0;
 }
